@@ -4,7 +4,7 @@
    wrapped explicitly, and [perr] raised where the Go code would dereference nil or loop forever.
    PInv p = Core p /\ wsz p <= pcap p (Proof/PolicyI.v, PolicyO.v). *)
 From Coq Require Import ZArith List Bool Permutation.
-From Verif Require Import Base.Word64 Model.Sketch Model.Policy Proof.PolicyL Proof.PolicyI Proof.PolicyT Proof.PolicyO Model.DList Proof.DListP.
+From Verif Require Import Base.Word64 Model.Sketch Model.Policy Proof.PolicyL Proof.PolicyI Proof.PolicyT Proof.PolicyO Model.DList Proof.DListP Model.Flags Gen.Consts Proof.FlagsP.
 Import ListNotations.
 Open Scope Z_scope.
 
@@ -127,3 +127,34 @@ Example c07_list_example :
   let h := fold_left lop_run [LPushFront 1 2; LPushFront 2 3; LPushBack 3 1; LMoveToFront 3; LRemove 2; LPopTail] dl_new in
   (dl_forward h, dl_backward h, dlen h, dcount h) = ([3], [3], 1, 1).
 Proof. exact dlist_example. Qed.
+
+(* ---- the region / state flags of an entry.  The models keep them as separate booleans; the code packs them
+   into one int8 (internal/policy_flag.go).  c_flag_bits is scraped from that file on every run: per flag the bit
+   that Set(true) sets, the bit Set(false) clears and the bit Is tests. *)
+Theorem c07_flag_table_consistent : good_table c_flag_bits = true.
+Proof. exact table_good. Qed.
+Print Assumptions c07_flag_table_consistent.
+
+(* Set<A>(b) makes Is<A>() answer b, changes no other flag, and stays within the seven used bits *)
+Theorem c07_flags_independent : forall f a b, 0 <= f < 128 -> In a c_flag_bits ->
+  let v := fl_set a b f in
+  0 <= v < 128 /\ fl_is a v = b /\ forall o, In o c_flag_bits -> snd a <> snd o -> fl_is o v = fl_is o f.
+Proof. exact flags_independent. Qed.
+Print Assumptions c07_flags_independent.
+
+(* hence over every sequence of Set calls the packed byte answers like a record of booleans updated field by field *)
+Theorem c07_flags_as_record : forall ops f r, 0 <= f < 128 ->
+  (forall o, In o c_flag_bits -> fl_is o f = r (snd o)) ->
+  (forall a b, In (a, b) ops -> In a c_flag_bits) ->
+  let f' := fold_left (fun f ab => fl_set (fst ab) (snd ab) f) ops f in
+  let r' := fold_left (fun r ab => upd_rec r (snd (fst ab)) (snd ab)) ops r in
+  0 <= f' < 128 /\ forall o, In o c_flag_bits -> fl_is o f' = r' (snd o).
+Proof. exact flags_as_record. Qed.
+Print Assumptions c07_flags_as_record.
+
+Example c07_flags_example :
+  let rows := c_flag_bits in
+  let window := nth 6 rows (0, 0, 0) in let prob := nth 1 rows (0, 0, 0) in
+  let f := fl_set prob true (fl_set window true 0) in
+  (f, fl_is window f, fl_is prob f, fl_is window (fl_set window false f), fl_is prob (fl_set window false f)) = (66, true, true, false, true).
+Proof. exact flags_example. Qed.
